@@ -106,6 +106,10 @@ func (c *Client) handleSearch() error {
 		if !c.dec.ExpectNumber(&num) {
 			return c.dec.Err()
 		}
+		if num == 0 {
+			// 0 stands for "*" in a number set
+			return fmt.Errorf("imapclient: server returned message number 0 in SEARCH response")
+		}
 		if cmd != nil {
 			switch all := cmd.data.All.(type) {
 			case imap.SeqSet:
